@@ -34,6 +34,7 @@ def opAssemble (j : Json) : Except String Json := do
           [("jac", matToJson jac), ("grad", matToJson grad),
            ("djac", matToJson (diffJacobianEqn m.states a.ode)),
            ("gjac", matToJson (gradJacobianEqn m.states m.params a.ode)),
+           ("ggrad", matToJson (gradGradEqn m.params a.ode)),
            ("tjac", matToJson F), ("tmean", exprsToJson (transitionMean F a.rates)),
            ("tvar", exprsToJson (transitionVar F a.rates))]
         else []
